@@ -1159,7 +1159,7 @@ class LogixDriver(CIPDriver):
                 request.build_message()
 
                 req_size = len(request.message)
-                if req_size > self.connection_size:
+                if req_size + MULTISERVICE_READ_OVERHEAD > self.connection_size:
                     request = WriteTagFragmentedRequestPacket.from_request(self._sequence, request)
                     fragmented_requests.append(request)
                 else:
